@@ -1307,10 +1307,13 @@ class ShortBinUnicode(DynamicLength, ConstantOpcode):
     length_bytes = 1
 
     @classmethod
-    def validate(cls, obj: str) -> bytes:
+    def validate(cls, obj: str) -> str:
         if not isinstance(obj, str):
             raise ValueError(f"obj must be of type str, not {obj!r}")
-        return super().validate(obj.encode("utf-8"))
+        # the length limit applies to the UTF-8 encoding, but the argument stays text, as it is
+        # when the opcode is parsed from a pickle (a bytes argument would decompile to b"...")
+        super().validate(obj.encode("utf-8"))
+        return obj
 
     def encode_body(self) -> bytes:
         text = self.arg
@@ -1336,10 +1339,10 @@ class Unicode(ConstantOpcode):
     priority = BinUnicode8.priority + 1
 
     @classmethod
-    def validate(cls, obj: str) -> bytes:
+    def validate(cls, obj: str) -> str:
         if not isinstance(obj, str):
             raise ValueError(f"{cls.__name__}.new expects a str object, not {obj!r}")
-        return obj.encode("utf-8")
+        return obj
 
     def encode_body(self) -> bytes:
         text = self.arg
